@@ -1,5 +1,11 @@
-"""C03 - executing a program touches only the array elements it is entitled to (every load/store of every feasible path)."""
-from lib import x86run
+"""C03 - executing a program touches only the array elements it is entitled to (every load/store of every feasible path).
+(a) machine code: every load/store of every feasible path of the x86-64 code (shared runner);
+(b) emulation: every real emulator kernel (LLVM IR of orc/orcemulateopcodes.c, engines/irsym) is run on operand objects that
+    have exactly the entitled size (n elements; loadupdb ceil(n/2); loadupib n/2+1) - any access outside them is a fault path."""
+import os
+from concurrent.futures import ProcessPoolExecutor
+from lib import x86run, build
+from lib.common import NCPU
 from lib.common import Report, tier
 from props import x86common
 
@@ -17,7 +23,64 @@ def main():
     rep.assume(*x86common.ASSUME)
     results, info = x86run.run(('C01', 'C03', 'C10', 'C11'), flagsets=flagsets())
     x86common.fold('C03', 'translation_validation', results, info, rep, '')
+    emulator_frame(rep)
     return rep.finish()
+
+
+_G = {}
+
+
+def _init(ll, optable):
+    from engines.irsym import Module
+    _G['m'] = Module.load(ll)
+    _G['ops'] = optable
+
+
+def _frame_job(name):
+    """Run emulate_<name> for n = 1..5 on exactly-sized operand objects; returns (name, runs, faults, undecided)."""
+    from engines.irsym import kernel_closed_form, Unsupported, MemFault
+    m, op = _G['m'], _G['ops'][name]
+    runs, faults, undecided = 0, [], []
+    for n in (1, 2, 3, 4, 5):
+        se = None
+        if name == 'loadupdb':
+            se = {0: (n + 1) // 2}
+        elif name == 'loadupib':
+            se = {0: n // 2 + 1}
+        try:
+            kernel_closed_form(m, op, n, offset_term=0, simplify=False, src_elems=se)
+            runs += 1
+        except MemFault as e:
+            faults.append('emulate_%s (n=%d): access outside the entitled operand bytes: %s' % (name, n, str(e)[:160]))
+        except Unsupported as e:
+            undecided.append('n=%d: %s' % (n, str(e)[:160]))
+        except Exception as e:
+            undecided.append('n=%d: %s: %s' % (n, type(e).__name__, str(e)[:160]))
+    return name, runs, faults, undecided
+
+
+def emulator_frame(rep):
+    from engines.irsym import Module, opcode_table_from_ir
+    b = build.Build('c03emu')
+    # -O0: every load/store written in the source is present in the IR (at -O1 clang sinks or removes loads whose value is
+    # unused on some path, which would hide an over-read that the shipped gcc build performs)
+    ll = b.ir('emu0', os.path.join(build.REPO, 'orc', 'orcemulateopcodes.c'), wrapv=True, opt='-O0')
+    llsys = b.ir('opsys', os.path.join(build.REPO, 'orc', 'orcopcodes-sys.c'), wrapv=True)
+    optable = {o['name']: o for o in opcode_table_from_ir(Module.load(llsys))}
+    # the resampling/offset loads index a window whose entitled range depends on the parameter values: outside this part
+    names = [n for n in sorted(optable) if not n.startswith(('ldres', 'loadoff'))]
+    with ProcessPoolExecutor(max_workers=NCPU, initializer=_init, initargs=(ll, optable)) as ex:
+        out = list(ex.map(_frame_job, names, chunksize=4))
+    for name, runs, faults, undecided in out:
+        rep.functions.add('emulate_' + name)
+        if faults:
+            rep.violated('c03.emu.%s' % name, faults[0], name='c03.emu.' + name, n_props=5)
+        elif undecided:
+            rep.inconc('c03.emu.' + name, '; '.join(undecided)[:300])
+        else:
+            rep.held('c03.emu.' + name, n_props=runs, engine='irsym')
+    rep.extra['emulator_frame'] = dict(kernels=len(names), n='1..5', rule='operand objects have exactly the entitled size; every load/store of the kernel must fall inside one of them (irsym per-object faults)',
+                                       outside='ldres*/loadoff* kernels (window depends on parameter values; their index arithmetic is C02)')
 
 
 def replay(path):
